@@ -390,7 +390,7 @@ def wide_cases(g, Ns, kind, elem="E", fault="none", suffix=("new",), layouts_per
     r = g.rng
     for N in Ns:
         for (st, sz) in wide_layouts(N, r, layouts_per_n):
-            vals = [((7 * i + 3) % 251) for i in range(sz)] if elem == "u8" else default_vals(sz)
+            vals = [(v if v != 13 else 14) for v in (((7 * i + 3) % 251) for i in range(sz))] if elem == "u8" else default_vals(sz)
             probe = Case(0, N, st, vals, elem=elem)
             mk = (lambda c: wide_io(c, N, sz, Rng(N * 1000 + st * 7 + sz), fams)) if kind == "io" else \
                  (lambda c: wide_ops(c, N, sz, Rng(N * 1000 + st * 7 + sz), kind))
@@ -402,6 +402,27 @@ def wide_cases(g, Ns, kind, elem="E", fault="none", suffix=("new",), layouts_per
                     continue
                 c = g.new(N, st, vals, junk=junk, fault=fault, elem=elem, tag="wide")
                 c.ops = [mk(c)[k]] + list(suffix)
+
+
+def wide_eq(g, Ns, every=1, layouts_per_n=4):
+    """buffer == slice where the slice differs from the contents in exactly one position (every position for
+    lengths up to 80, block boundaries beyond), or not at all, or only in length"""
+    r = g.rng
+    for N in Ns:
+        for (st, sz) in wide_layouts(N, r, layouts_per_n):
+            vals = default_vals(sz)
+            pos = list(range(sz)) if sz <= 80 else sorted({p for b in range(0, sz, 8) for p in (b - 1, b, b + 1) if 0 <= p < sz} |
+                                                           {0, sz - 1, sz // 2})
+            variants = [list(vals), list(vals[:-1]), list(vals) + [7]]
+            for p_ in pos:
+                v = list(vals)
+                v[p_] += 1
+                variants.append(v)
+            for v in variants:
+                if every > 1 and not r.chance(1, every):
+                    continue
+                c = g.new(N, st, vals, junk=3, tag="wide")
+                c.ops = ["eq_slice slice " + c.es(len(v), v), "new"]
 
 
 def other_buf(c, M, st, vals, junk=3, idbase=900):
